@@ -200,6 +200,20 @@ def harness(env, case):
         env.fail("unknown na_action accepted")
         return
     # reference: the frame without the rows that are incomplete in a used variable
+    if not keep and action == "drop":
+        # nothing is left: the same outcome as for a frame without observations, which is refused
+        try:
+            run(dirty, action)
+        except (symx.PathEnd, symx.Inconclusive):
+            raise
+        except ValueError:
+            env.ok("drop: refused when no complete row is left (as a frame without observations is)")
+            return
+        except Exception as e:
+            env.fail("drop: no complete row left: wrong exception type", {"exc": type(e).__name__, "site": core.repo_site(e)})
+            return
+        env.fail("drop: a design without observations is returned when no complete row is left")
+        return
     if not keep and action != "pass":
         return
     try:
